@@ -443,12 +443,35 @@ func (r *Run) havocLoop(fr *Frame, li *loopInfo, st *State) {
 	for _, b := range blocks {
 		r.scanWrites(fr, b, ws, 0)
 	}
+	// ghost code attached to this function (and to literals expanded inside the loop) writes ghost state too
+	r.scanGhostWrites(fr.fn, ws, map[*ssa.Function]bool{})
+	for _, b := range blocks {
+		for _, ins := range b.Instrs {
+			if mc, ok := ins.(*ssa.MakeClosure); ok {
+				r.scanGhostWrites(mc.Fn.(*ssa.Function), ws, map[*ssa.Function]bool{})
+			}
+		}
+	}
 	if ws.all {
 		// keep cells that are not written
 		r.havocAll(st, tTrue)
 	}
 	for k, typ := range ws.cells {
 		st.cells[k] = r.freshTyped("lv."+k.alloc.Comment, typ, st)
+	}
+	if ws.all {
+		// everything was forgotten, except what a callee's unspecified effects can not reach (thread-local ghosts,
+		// lock ownership, private boxes): the loop's own writes to those are forgotten here
+		var cs []string
+		for c := range ws.comps {
+			cs = append(cs, c)
+		}
+		sort.Strings(cs)
+		for _, c := range cs {
+			if srt, ok := r.compSorts[c]; ok {
+				r.heapSet(st, c, r.ctx.Fresh("lh."+c, srt))
+			}
+		}
 	}
 	if !ws.all {
 		var cs []string
@@ -751,6 +774,10 @@ func (r *Run) scanStatic(fr *Frame, f *ssa.Function, c *ssa.CallCommon, ws *writ
 		if len(c.Args) > 0 {
 			if fa, ok := c.Args[0].(*ssa.FieldAddr); ok {
 				if mon := r.monitorFor(fa); mon != nil {
+					// monitor-level ghost code runs at every Lock / Unlock of this monitor
+					for _, ga := range append(append([]GhostAssign(nil), mon.LockGhost...), mon.UnlockGhost...) {
+						r.ghostTargetComps(ga.LHS, ws, mon.Pkg)
+					}
 					for _, comp := range r.monitorComps(mon) {
 						if comp == "E.*" {
 							for c := range r.compSorts {
@@ -1511,4 +1538,73 @@ func (c *callCtx) paramField(r *Run, param, field string) (string, ssa.Value) {
 		}
 	}
 	return "", nil
+}
+
+// scanGhostWrites adds the targets of every ghost assignment in fn's contract (any anchor) to the write set.
+func (r *Run) scanGhostWrites(fn *ssa.Function, ws *writeSet, seen map[*ssa.Function]bool) {
+	if seen[fn] {
+		return
+	}
+	seen[fn] = true
+	if sp := r.specFor(fn); sp != nil {
+		for _, gb := range sp.Ghost {
+			for _, ga := range gb.Assign {
+				r.ghostTargetComps(ga.LHS, ws, sp.Pkg)
+			}
+		}
+	}
+	for _, a := range fn.AnonFuncs {
+		r.scanGhostWrites(a, ws, seen)
+	}
+}
+
+func (r *Run) ghostTargetComps(lhs Expr, ws *writeSet, pkgShort string) {
+	switch x := lhs.(type) {
+	case *ESel:
+		// x.g: every ghost field named g
+		found := false
+		for name, srt := range r.specs.Ghosts {
+			if strings.HasSuffix(name, "."+x.Sel) {
+				structN := name[:len(name)-len(x.Sel)-1]
+				// the component is F.<pkg>.<Struct>.<field>: find the package by scanning loaded repo packages
+				for path := range r.prog.ByPkg {
+					pkg := r.prog.ByPkg[path].Pkg
+					if shortPkg(pkg.Path()) != pkgShort {
+						continue
+					}
+					if tn, ok := pkg.Scope().Lookup(structN).(*types.TypeName); ok {
+						comp := "F." + structName(tn.Type()) + "." + x.Sel
+						r.regComp(comp, arraySort(SInt, srt))
+						ws.addWild(comp)
+						found = true
+					}
+				}
+			}
+		}
+		if !found {
+			ws.all = true
+		}
+	case *EIndex:
+		if inner, ok := x.X.(*ESel); ok {
+			r.ghostTargetComps(inner, ws, pkgShort)
+			return
+		}
+		if id, ok := x.X.(*EIdent); ok {
+			if srt, ok := r.specs.Ghosts[id.Name]; ok {
+				r.regComp("ghost."+id.Name, srt)
+				ws.addWild("ghost." + id.Name)
+				return
+			}
+		}
+		ws.all = true
+	case *EIdent:
+		if srt, ok := r.specs.Ghosts[x.Name]; ok {
+			r.regComp("ghost."+x.Name, srt)
+			ws.addWild("ghost." + x.Name)
+			return
+		}
+		ws.all = true
+	default:
+		ws.all = true
+	}
 }
